@@ -32,11 +32,14 @@ pub enum ROp {
 pub struct Case12 {
     pub cmds: Vec<RCmd>,
     pub ops: Vec<ROp>,
+    /// programs entered after the 1st, 2nd ... `clear` (when exhausted, the last program is entered again)
+    pub later: Vec<Vec<RCmd>>,
 }
 
 impl Case for Case12 {
     fn to_json(&self) -> Value {
         let mut v = cmds_json(&self.cmds);
+        v["later"] = Value::Array(self.later.iter().map(|p| cmds_json(p)).collect());
         v["ops"] = Value::Array(
             self.ops
                 .iter()
@@ -69,7 +72,11 @@ impl Case for Case12 {
                 }
             })
             .collect::<Option<Vec<_>>>()?;
-        Some(Case12 { cmds, ops })
+        let later = match v.get("later").and_then(|l| l.as_array()) {
+            Some(a) => a.iter().map(|p| p.get("cmds")?.as_array()?.iter().map(RCmd::from_json).collect::<Option<Vec<_>>>()).collect::<Option<Vec<_>>>()?,
+            None => Vec::new(),
+        };
+        Some(Case12 { cmds, ops, later })
     }
 }
 
@@ -99,7 +106,9 @@ enum SimErr {
 }
 
 fn simulate(c: &Case12, budget: usize) -> Result<Sim, SimErr> {
-    let all: Vec<MCmd> = c.cmds.iter().map(MCmd::from_rcmd).collect();
+    let mut cur_prog: Vec<RCmd> = c.cmds.clone();
+    let mut all: Vec<MCmd> = cur_prog.iter().map(MCmd::from_rcmd).collect();
+    let mut later = c.later.iter();
     let mut m = Model::new(Vec::new(), "");
     m.size_cap9 = 7;
     let mut ptr = 0usize;
@@ -108,6 +117,12 @@ fn simulate(c: &Case12, budget: usize) -> Result<Sim, SimErr> {
     let mut steps = 0usize;
     let mut ops: Vec<ROp> = c.ops.clone();
     ops.push(ROp::Enter(usize::MAX)); // whatever is left goes in as the last line
+    let clears = ops.iter().filter(|o| **o == ROp::Clear).count();
+    for _ in clears..c.later.len() {
+        // every later program gets its turn: clear, then enter it whole
+        ops.push(ROp::Clear);
+        ops.push(ROp::Enter(usize::MAX));
+    }
     let mut line_no = 0usize;
     for op in ops {
         match op {
@@ -125,6 +140,11 @@ fn simulate(c: &Case12, budget: usize) -> Result<Sim, SimErr> {
                 m = Model::new(Vec::new(), "");
                 m.size_cap9 = 7;
                 ptr = 0;
+                if let Some(p) = later.next() {
+                    cur_prog = p.clone();
+                    all = cur_prog.iter().map(MCmd::from_rcmd).collect();
+                }
+                s.complete_entry = false;
                 line_start_of_cmd.clear();
                 s.whole_out.clear();
                 s.whole_err.clear();
@@ -135,7 +155,7 @@ fn simulate(c: &Case12, budget: usize) -> Result<Sim, SimErr> {
                 if k == 0 {
                     continue;
                 }
-                let cmds = &c.cmds[ptr..ptr + k];
+                let cmds = &cur_prog[ptr..ptr + k];
                 s.script.push(render_canonical(cmds));
                 s.program_lines += 1;
                 line_no += 1;
@@ -259,7 +279,7 @@ pub fn check(c: &Case12, st: &mut Stats, bin: &std::path::Path, scratch: &std::p
         }
     }
     // the whole program run at once (only meaningful when the last entry of the program was complete or ended by exit)
-    if also_run && (sim.complete_entry || sim.exited) && !sim.cleared {
+    if also_run && (sim.complete_entry || sim.exited) && !sim.cleared && c.later.is_empty() {
         let text = render_canonical(&c.cmds);
         if let Ok(w) = proc::run_hyeong(bin, scratch, &text, 0, b"", |o| {
             o.cpu_secs = Some(20);
@@ -285,7 +305,7 @@ pub fn check(c: &Case12, st: &mut Stats, bin: &std::path::Path, scratch: &std::p
         }
     }
     if sim.program_lines >= 2 && (sim.lines_with_output >= 2 || sim.cross_line_jump || sim.exited) {
-        st.nontrivial(&(&c.cmds, &c.ops), || json!({"script": sim.script, "status": sim.status}));
+        st.nontrivial(&(&c.cmds, &c.ops, &c.later), || json!({"script": sim.script, "status": sim.status}));
     }
     Ok(())
 }
@@ -310,18 +330,28 @@ fn strategy() -> BoxedStrategy<Case12> {
     // variant: a ♡ evaluated early (falls through while no jump has happened yet), jumps later, and a `clear` in the middle of the session:
     // after `clear` the second entry must behave like the first one
     (prog, prop::collection::vec(op, 0..14), 0u8..4, any::<u16>(), any::<u16>(), prop::sample::select(vec!["♡", "♡?", "?♡", "♡!♥"]), 0usize..4)
-        .prop_map(|(mut cmds, mut ops, variant, a, b, area, d)| {
-            if variant == 0 {
-                let pos = pick_idx(a, cmds.len().min(3) + 1);
-                cmds.insert(pos, RCmd::with_area(0, 1, d, crate::refparse::parse_shape(area).unwrap()));
-                let at = pick_idx(b, ops.len() + 1);
-                ops.insert(at, ROp::Clear);
-                if at == 0 {
-                    ops.insert(0, ROp::Enter(cmds.len()));
-                }
-            }
-            Case12 { cmds, ops }
+        .prop_flat_map(|(cmds, ops, variant, a, b, area, d)| {
+            // programs entered after `clear`: none (the same program again), or a different one that evaluates a ♡ before any jump of its own
+            let later = if variant == 0 {
+                prop::collection::vec(program_with_jumps(&Profile::input_free(8)), 1..=2)
+                    .prop_map(move |mut ps| {
+                        for p in ps.iter_mut() {
+                            let pos = pick_idx(a, p.len() + 1);
+                            p.insert(pos, RCmd::new(1, 1, 1));
+                            p.insert(pos, RCmd::with_area(0, 5, 13, crate::refparse::parse_shape(area).unwrap()));
+                            let _ = (b, d);
+                        }
+                        ps
+                    })
+                    .boxed()
+            } else if variant == 1 {
+                prop::collection::vec(program_with_jumps(&Profile::input_free(8)), 1..=1).boxed()
+            } else {
+                Just(Vec::new()).boxed()
+            };
+            (Just(cmds), Just(ops), later)
         })
+        .prop_map(|(cmds, ops, later)| Case12 { cmds, ops, later })
         .boxed()
 }
 
